@@ -27,7 +27,7 @@ PROPS["C08"] = {
     "assumptions": ["signature tolerances >= 0, entropies on a 1/64 grid in the differential"],
 }
 PROPS["C05"] = {
-    "suites": [{"name": "match", "quick": 250, "thorough": 6000}],
+    "suites": [{"name": "match", "quick": 250, "thorough": 6000}, {"name": "indexscan", "quick": 3, "thorough": 30, "timeout": 3000}],
     "required_theorems": ["C05_self_match", "C05_found_in_alerts", "C05_found_exact_json"],
     "level_text": "Kernel-checked: MatchSignature(t, IndexFunction(t)) has confidence exactly 1 for every topology, hash value and default tolerance, hence the indexed signature is reported by the alert pipeline of either backend at every threshold <= 1 and by JSON exact mode. Tie: IndexFunction, GenerateTopologyHash (model SHA-256), GenerateFuzzyHash, MatchSignature differential; self-match evaluated on the real code for every generated topology.",
     "level_note": "PARTIAL: the SSA-extraction half (topology of a renamed/reformatted copy equals the original's) is a fact about go/ssa + ExtractTopology and is validated by differential runs on generated Go sources, not proved. Trusted: Lean kernel, SHA-256 model used only for equality, harness.",
@@ -131,6 +131,7 @@ PROPS["C10"] = {
     "trusted_base": ["Go runtime scheduler and map iteration (sampled)", "sort.SliceStable is a stable sort (modelled as mergeSort)"],
 }
 PROPS["C12"] = {
+    "also": ["C01"],   # the shared canon correspondence suite tags its violations C01
     "suites": [{"name": "loops", "quick": 150, "thorough": 3000, "timeout": 3000}, {"name": "canon", "timeout": 3000}],
     "lean_modules": ["SfwModel.Props.C12"],
     "required_theorems": ["C12_closed_form", "C12_closed_form_mod_width", "C12_negate_sound", "C12_flags_sound_left",
@@ -151,6 +152,62 @@ PROPS["C01"] = {
     "level_note": "PARTIAL: go/packages + go/ssa determinism (SSA construction order, naming) and the Go scheduler are exercised, not modelled; map-range sites are reviewed by hand and pinned by the regenerated facts, so an unreviewed new site breaks the proof obligation rather than being analysed. Trusted: Lean kernel, the extractor (syntactic, no type information), the harness.",
     "partial": "go/ssa construction determinism and the reviewed map-range sites are trusted/pinned, not proved order-insensitive in Lean",
     "trusted_base": ["go/packages, go/ssa (deterministic construction)", "harness/extract (go/ast fact extractor)", "sync.Pool hands out an object to one goroutine at a time"],
+}
+PROPS["C02"] = {
+    "also": ["C01"],   # the shared canon correspondence suite tags its violations C01
+    "suites": [{"name": "refactor", "timeout": 3000}, {"name": "canon", "timeout": 3000}],
+    "lean_modules": ["SfwModel.Props.C02"],
+    "required_theorems": ["C02_self_reference_name_free", "C02_commutative_operands_exchange", "C02_noncommutative_keeps_order",
+                          "C02_flip_decision", "C02_flip_meets", "C02_flip_idempotent", "C02_string_literals_abstracted",
+                          "C02_big_int_literals_abstracted", "C02_small_range"],
+    "level_text": "Kernel-checked on the Lean canonicaliser (which reproduces the real CanonicalIR byte for byte on 900+ functions on every run, from an export that carries no local, parameter, label or position names): each normalisation of the catalogue is a theorem about the function that implements it - self/closure references are printed without the function's name; a commutative BinOp prints the same text for both operand orders; a swap is recorded exactly for >=/> and prints the opposite test with exchanged successors, which is how the opposite spelling prints (and < / <= are fixed points); under the default policy every string literal and every integer literal outside [-16,16] is abstracted in EVERY usage context. Behavioural tie: generated functions (straight-line, branching, nested loops, slices, strings, calls, closures, recursion, methods) and a catalogue of hand-shaped specials on defined types, methods, labels and closures are refactored (rename locals/params/labels/function, reformat, reorder, flip, commute, big-int and string literal replacement; singly and composed) and the real fingerprints must be equal.",
+    "level_note": "PARTIAL: whole-function invariance (that the local normal forms compose to equal fingerprints for every program) is validated on generated programs, not proved; go/ssa's lowering of the two spellings is trusted. One known finding: a flip whose test is between two constants is folded by go/ssa before the canonicaliser sees it.",
+    "partial": "composition of the local normal forms over whole functions is validated, not proved",
+    "trusted_base": ["go/ssa lowering (renaming and reformatting do not change the SSA; the exporter drops names)", "harness AST rewriter (cosmetic catalogue)"],
+}
+PROPS["C03"] = {
+    "also": ["C01"],   # the shared canon correspondence suite tags its violations C01
+    "suites": [{"name": "collide", "timeout": 3000}, {"name": "canon", "timeout": 3000}],
+    "lean_modules": ["SfwModel.Props.C03"],
+    "required_theorems": ["C03_commutative_guard", "C03_noncommutative_ops", "C03_swap_guard", "C03_no_swap_on_floats",
+                          "C03_hoist_guard", "C03_recurrences_of_different_loops_differ", "C03_callee_names_distinct",
+                          "C03_kept_literals_distinct", "C03_keepall_keeps"],
+    "level_text": "Kernel-checked guards on the Lean canonicaliser: operands are reordered only for + * == != & | ^ and + only on numbers; a branch swap is recorded only for integer|string operands whose comparison feeds nothing but that If (never floats); only len/cap/complex/real/imag/min/max are hoisted and len/cap never on a map or channel; recurrences of different loops, different external callees and different kept literals print differently; KeepAllLiteralsPolicy abstracts no string and no int64. Behavioural tie and the search for collisions: every generated function P is edited into Q by the behaviour-changing catalogue (operator, operand, branch, callee, index, loop variable/step/compare, small literal, deliberately invalid commute/flip/hoist, exchanged nested loop variables, callee of another package, exchanged select cases), BOTH are executed natively on an input table, and whenever the outputs differ the fingerprints must differ under KeepAllLiterals and under the default policy.",
+    "level_note": "PARTIAL: global injectivity of the canonical text (no two behaviourally different functions share it) is not proved - it needs a semantics of Go SSA; the theorems pin each normalisation's guard and the native-execution oracle searches for collisions. Known finding: select-case sorting merges functions that differ only in which case body belongs to which channel.",
+    "partial": "no SSA semantics in Lean: collisions are searched by native execution, guards are proved",
+    "trusted_base": ["the Go compiler and runtime (native execution of P and Q)", "go/ssa"],
+}
+PROPS["C04"] = {
+    "suites": [{"name": "collide", "timeout": 3000}],
+    "lean_modules": ["SfwModel.Props.C04", "SfwModel.Props.C09Zipper"],
+    "required_theorems": ["C04_preserved_iff", "C04_identical_copy_preserved", "C04_oversized_never_zipper_preserved",
+                          "C04_unmatched_means_modified", "C04_zipper_preserved_same_size", "C04_constant_marker_was_unsound"],
+    "level_text": "Kernel-checked decision logic of CompareFunctions: the verdict is `preserved` iff the fingerprints are equal, or neither side is oversized and the zipper left nothing added and nothing removed; identical copies are preserved; an oversized function is never waved through by the zipper; any unmatched instruction means modified; zipper-preserved pairs have equally many instructions (bookkeeping theorems of C09). Behavioural tie: for every generated (old,new) pair whose native outputs differ on some input, and for the specials (exchanged if/else bodies, oversized edit, callee swap, select, nested loop variables), the real cli.CompareFunctions / ComputeDiff status must not be preserved; every function compared with a separately compiled copy of itself must be preserved with nothing added or removed.",
+    "level_note": "PARTIAL: that fingerprint equality and an empty zipper difference imply equal behaviour is C03's open half; here it is searched by native execution. Known finding shared with C03 (select cases).",
+    "partial": "soundness of the two routes to `preserved` rests on C03 / the zipper's equivalence relation, searched by native execution",
+    "trusted_base": ["the Go compiler and runtime (native execution)", "diff.Zipper's areEquivalent (exercised, not modelled)"],
+}
+PROPS["C16"] = {
+    "suites": [{"name": "walk", "quick": 150, "thorough": 3000, "timeout": 3000}],
+    "lean_modules": ["SfwModel.Props.C16"],
+    "required_theorems": ["C16_collect_iff", "C16_collected_are_files", "C16_collect_sublist", "C16_one_slot_per_file",
+                          "C16_error_reported", "C16_strict_fails_iff", "C16_no_silent_drop_partial",
+                          "C16_panic_drops_file_counterexample"],
+    "level_text": "Kernel-checked on the walker model over arbitrary directory trees (mutual inductive Tree/Forest, any depth and width): a file is collected IF AND ONLY IF it is a non-test .go file with no vendor or hidden directory between the target and itself; collection is a sub-sequence of the walk (order kept, nothing twice); every collected file gets exactly one result slot; a file with an error is visible in its slot and sets hasErrors; strict mode fails iff there are no files or some file has an error. Tie: random trees are materialised on disk and the real cli.CollectFiles is compared with the Lean walker and with an independent declarative oracle; generated modules (nested packages, methods incl. generic receivers, nested closures, generic functions, package-level function literals, init, test-named files, vendor/hidden directories, oversize / syntax-error / type-error / build-tag-excluded / empty files) go through the real ProcessFilesParallel and RunCheckLogic and every go/parser FuncDecl-with-body and FuncLit must be reported with its file and line, every unanalysable file must carry an error, strict must fail exactly when one does.",
+    "level_note": "PARTIAL: 'every function is fingerprinted' depends on go/packages + go/ssa enumeration and is validated against go/parser, not proved; the model shows (C16_panic_drops_file_counterexample) that a worker panic recovered by ProcessFilesParallel would leave an anonymous error-free slot - no input that makes the analysis panic is known, so this is recorded as a modelling observation, not a finding.",
+    "partial": "function enumeration validated against go/parser; a recovered worker panic would drop a file silently (no triggering input known)",
+    "trusted_base": ["filepath.WalkDir visits entries in lexical order and honours SkipDir", "go/packages, go/ssa, go/parser"],
+}
+PROPS["C17"] = {
+    "also": ["C01"],   # the shared canon correspondence suite tags its violations C01
+    "suites": [{"name": "dos", "timeout": 3000}, {"name": "canon", "timeout": 3000}],
+    "lean_modules": ["SfwModel.Props.C17"],
+    "required_theorems": ["C17_bucket_capped", "C17_scan_cost", "C17_matchUsers_cost", "C17_propagate_cost",
+                          "C17_propagate_cost_MaxCandidates", "C17_uncapped_quadratic"],
+    "level_text": "Kernel-checked cost bound of the zipper's matching loops for every fingerprint function, equivalence relation and referrer structure: a bucket never exceeds the cap, one matchUsers call makes at most |old users| x cap areEquivalent calls, the whole propagation at most cap x (referrer slots of the queued values); without the cap the cost is exactly n^2. Every traversal of the Lean canonicaliser (renamer with depth and cycle guard, computeSCEV with depth and size guard, iterative Tarjan, loop-depth limit) is a total Lean function, i.e. terminates by the kernel-checked termination argument that uses the code's own guards, and the model takes each guard at the same point as the real code on guard-crossing inputs (canon suite). Tie: adversarial families at growing sizes, each in a child process with a 90 s budget; the areEquivalent counter (hook) must stay below the proved bound evaluated on the real functions; no panic; OVERSIZED marker beyond the block cap; token-mutated sources must not crash.",
+    "level_note": "PARTIAL: absence of panics and wall-clock completion are runtime facts, exercised on the families and mutated sources, not proved; memory use is not measured. A genuine defect was found by this suite and repaired (SCEV trees of shared DAGs).",
+    "partial": "absence of panics / completion are exercised on adversarial families, not proved for all inputs",
+    "trusted_base": ["hook verifCountEquivalence (one increment per areEquivalent call)", "process timeout as the observation of non-termination"],
 }
 _PENDING = "check not built yet in this round (planned: Lean model + theorems + differential, see DESIGN.md §5)"
 # entries with "unclaimed": True are runnable (./check Cxx) but not yet claimed in MANIFEST.json
